@@ -284,14 +284,6 @@ class Screen(BaseScreen, RealTerminal):
         self._wait_for_input_ready(self._next_timeout)
         keys, raw = self.parse_input(None, None, self.get_available_raw_input())
 
-        # There is no event loop alarm on this path: when the input ends in an incomplete sequence
-        # wait complete_wait for the rest, then decode the pending codes as they stand
-        while self._partial_codes:
-            ready = self._wait_for_input_ready(self.complete_wait)
-            new_keys, new_raw = self.parse_input(None, None, self.get_available_raw_input(), wait_for_more=bool(ready))
-            keys += new_keys
-            raw += new_raw
-
         # Avoid pegging CPU at 100% when slowly resizing
         if keys == ["window resize"] and self.prev_input_resize:
             logger.debug('get_input: got "window resize" > 1 times. Enable throttling for resize.')
@@ -305,6 +297,15 @@ class Screen(BaseScreen, RealTerminal):
                     else:
                         keys.extend(new_keys)
                     break
+
+        # There is no event loop alarm on this path: when the input (including what the resize throttle
+        # above has read) ends in an incomplete sequence
+        # wait complete_wait for the rest, then decode the pending codes as they stand
+        while self._partial_codes:
+            ready = self._wait_for_input_ready(self.complete_wait)
+            new_keys, new_raw = self.parse_input(None, None, self.get_available_raw_input(), wait_for_more=bool(ready))
+            keys += new_keys
+            raw += new_raw
 
         if keys == ["window resize"]:
             self.prev_input_resize = 2
